@@ -694,6 +694,10 @@ where
 		len += 1
 	}
 
+	if len == 0 {
+		size = Size::Width(2 + options.array_empty)
+	}
+
 	let size = match size {
 		Size::Expanded => Size::Expanded,
 		Size::Width(width) => match options.array_limit {
@@ -753,6 +757,10 @@ where
 		));
 		size.add(value.pre_compute_size(options, sizes));
 		len += 1;
+	}
+
+	if len == 0 {
+		size = Size::Width(2 + options.object_empty)
 	}
 
 	let size = match size {
